@@ -1,5 +1,7 @@
 import MindsVerif.Lemmas.OPMSql
 import MindsVerif.Lemmas.OPMCanon
+import MindsVerif.Lemmas.AstBuild
+import MindsVerif.Gen.CtorPin
 import MindsVerif.Gen.Prec_sqlite
 import MindsVerif.Gen.Prec_mysql
 import MindsVerif.Gen.Prec_mindsdb
@@ -24,7 +26,7 @@ are regenerated from the live grammar on every run (`Gen/Prec_<d>.lean`).
   does (for all states, not a sample), by kernel evaluation on the generated tables.
 -/
 namespace MindsVerif.Props.C03
-open MindsVerif.OPM MindsVerif.OPMConf MindsVerif.Gen
+open MindsVerif.OPM MindsVerif.OPMConf MindsVerif.Gen MindsVerif.AstBuild
 
 /-- full statement for precedence data `P` -/
 def C03_full (P : Table) (S : Strata) (F : Fragment) : Prop :=
@@ -47,6 +49,68 @@ theorem C03_mindsdb : C03_full Prec_mindsdb.P Prec_mindsdb.S Prec_mindsdb.F := C
 theorem phi3b_sqlite : conforms Prec_sqlite.spec Tables_sqlite.tables = true := by decide +kernel
 theorem phi3b_mysql : conforms Prec_mysql.spec Tables_mysql.tables = true := by decide +kernel
 theorem phi3b_mindsdb : conforms Prec_mindsdb.spec Tables_mindsdb.tables = true := by decide +kernel
+
+/-- Φ3c: reduce/reduce conflicts among operator rules (settled by yacc / SLY by the ORDER of the rules in the grammar
+file) are won by the longest rule in every `expr` state of the real tables — `expr IS NOT expr .` over `NOT expr .`,
+`expr BETWEEN expr AND expr .` over `expr AND expr .` — so the grouping does not depend on where a rule stands in
+the file; and the translator's list of operator-shaped productions misses none of the real table (`Model/OPMConf2.lean`).
+The two-token spellings (`expr IS NOT expr`, `expr NOT IN expr`: `Prec_<d>.splitOps`) are ordinary members of
+`F.bins`, so Φ3a / Φ3b / `C03_<d>` cover their `%prec` and their table cells as well. -/
+theorem phi3c_sqlite : rrLongest Prec_sqlite.spec Tables_sqlite.tables = true ∧
+    opProdsComplete Prec_sqlite.spec Tables_sqlite.tables = true := by decide +kernel
+theorem phi3c_mysql : rrLongest Prec_mysql.spec Tables_mysql.tables = true ∧
+    opProdsComplete Prec_mysql.spec Tables_mysql.tables = true := by decide +kernel
+theorem phi3c_mindsdb : rrLongest Prec_mindsdb.spec Tables_mindsdb.tables = true ∧
+    opProdsComplete Prec_mindsdb.spec Tables_mindsdb.tables = true := by decide +kernel
+/-- every two-token spelling the grammar has is in the fragment (and so under Φ3a / Φ3b / Level B) -/
+example : (Prec_mindsdb.splitOps.all fun c => Prec_mindsdb.F.bins.contains c.1) = true ∧
+    (Prec_sqlite.splitOps.all fun c => Prec_sqlite.F.bins.contains c.1) = true ∧
+    (Prec_mysql.splitOps.all fun c => Prec_mysql.F.bins.contains c.1) = true := by decide
+
+/-! ### the value the actions build (`Model/AstBuild.lean`) -/
+
+/-- full statement one level up: the VALUE the grammar actions build from what the machine parses — through node
+constructors `K` — reads back (as the harness reads a `BinaryOperation` / `UnaryOperation` / `BetweenOperation` tree)
+as the SQL grouping, parentheses directly around parentheses collapsed to the one flag the node has -/
+def C03_value_full (P : Table) (S : Strata) (F : Fragment) (K : Ctors) : Prop :=
+  ∀ e : Expr, inFragment F e = true →
+    (parse P (print P (addParens S e)) [] none).map (fun t => read (act K t)) = some (norm (addParens S e))
+
+/-- … holds for EVERY faithful constructor triple: nothing but "the node holds what it was given" is needed of the
+AST classes, at any size -/
+theorem C03_value (P : Table) (S : Strata) (F : Fragment) (h : sqlOrder P S F = true) (K : Ctors)
+    (hK : K.Faithful) : C03_value_full P S F K := by
+  intro e he
+  rw [(C03_generic P S F h e he).1]
+  simp [read_act hK]
+
+theorem C03_value_sqlite (K : Ctors) (hK : K.Faithful) : C03_value_full Prec_sqlite.P Prec_sqlite.S Prec_sqlite.F K :=
+  C03_value _ _ _ phi3a_sqlite K hK
+theorem C03_value_mysql (K : Ctors) (hK : K.Faithful) : C03_value_full Prec_mysql.P Prec_mysql.S Prec_mysql.F K :=
+  C03_value _ _ _ phi3a_mysql K hK
+theorem C03_value_mindsdb (K : Ctors) (hK : K.Faithful) : C03_value_full Prec_mindsdb.P Prec_mindsdb.S Prec_mindsdb.F K :=
+  C03_value _ _ _ phi3a_mindsdb K hK
+
+/-- the hypothesis is needed: a constructor that rotates a chain once its left spine is `limit` deep — taking an
+un-parenthesised AND under OR for part of the chain — builds `a AND (b OR c)`-shaped values for `a AND b OR c`
+(here `limit = 1`; with `limit = 128` the first wrong value needs 129 operators) -/
+theorem C03_value_witness : ¬ C03_value_full Prec_mindsdb.P Prec_mindsdb.S Prec_mindsdb.F (rotating 1) := by
+  intro h
+  have := h (.bin Prec_mindsdb.P.andTok (.atom 0) (.atom 1) |> fun l => .bin 131 l (.atom 2)) (by decide)
+  revert this
+  decide
+/-- … while small trees are untouched by a deep limit (why only LONG chains see such a change) -/
+example : (parse Prec_mindsdb.P (print Prec_mindsdb.P (.bin 131 (.bin 5 (.atom 0) (.atom 1)) (.atom 2))) [] none).map
+    (fun t => read (act (rotating 128) t)) = some (.bin 131 (.bin 5 (.atom 0) (.atom 1)) (.atom 2)) := by decide
+
+/-- the pin on the live constructors (probing translator `tools/extract/x_ctorpin.py`, regenerated every run): every
+probe — left-deep, right-deep and alternating chains of every operator the actions pass, prefix nests, BETWEEN nests,
+built one node at a time to depth ≥ 1300 (the associative chains to 6000) — returned at every depth a node holding
+exactly the given operator and argument objects, un-parenthesised, children unchanged -/
+theorem ctor_pin : ctorPinOK 1300
+    [(0, "and"), (0, "or"), (0, "+"), (0, "-"), (0, "*"), (0, "/"), (0, "%"), (0, "="), (0, "<>"), (0, "!="), (0, "<"),
+     (0, "<="), (0, ">"), (0, ">="), (0, "in"), (0, "not in"), (0, "like"), (0, "not like"), (0, "is"), (0, "is not"),
+     (0, "and/or"), (0, "or/and"), (0, "+/-"), (1, "not"), (1, "-"), (2, "between")] CtorPin.rows = true := by decide
 
 /-- "keeps user-written parentheses", and the expression layer of C01: for EVERY token list the
 machine accepts (any operators, any parentheses), printing the tree and parsing it again gives the
